@@ -193,7 +193,8 @@ POOL = list(FIXED.values()) + list(LATTICE.values())
 assert len(LATTICE) == 48 and all(cell_of(P) == k for k, P in LATTICE.items())
 # kinds of observation every cell must go through (cells with total loss: no filtered sampling, the filter
 # cannot be met)
-LATTICE_KINDS = ("gen", "pd", "proc", "table", "samples-nofilter", "samples-filter", "hist-read")
+LATTICE_KINDS = ("gen", "pd", "proc", "table", "samples-nofilter", "samples-filter", "hist-read", "draws-nofilter",
+                 "draws-filter")
 
 
 def lattice_required():
@@ -904,6 +905,316 @@ def judge_samples(chk, case):
     return ("broken", "model-vs-code:samples", "goodness-of-fit test against the exact model law fails: " + bad, case)
 
 
+# ------------------------------------------------------------------------------------------------
+# the sampler as a FUNCTION OF ITS DRAWS: exact replay against the Lean model, exhaustive forcing
+# ------------------------------------------------------------------------------------------------
+class Draws:
+    """Recording / forcing wrapper around the two standard-library primitives through which randomness enters
+    `Source.generate_samples` (and `BSDistribution.sample`): `random.choices` and `random.shuffle`, patched as
+    attributes of the `random` MODULE for the duration of one call (no edit of /repo).
+    record mode: the original functions run on index lists (same consumption of the generator, same results);
+    force mode : the prescribed draws are returned instead.  One entry per call:
+      ("c", population, weights, [index, ...])     random.choices
+      ("s", None, None, perm)                      random.shuffle:  x'[p] = x[perm[p]]"""
+
+    def __init__(self, forced=None):
+        self.calls = []
+        self.forced = forced
+        self.pos = 0
+
+    def __enter__(self):
+        self._c, self._s = pyrandom.choices, pyrandom.shuffle
+        pyrandom.choices, pyrandom.shuffle = self.choices, self.shuffle
+        return self
+
+    def __exit__(self, *a):
+        pyrandom.choices, pyrandom.shuffle = self._c, self._s
+        return False
+
+    def _next(self, kind, size):
+        if self.pos >= len(self.forced):
+            raise DrawsMismatch(f"the code asks for a draw no. {self.pos + 1}, only {len(self.forced)} prescribed")
+        k, val = self.forced[self.pos]
+        self.pos += 1
+        if k != kind or len(val) != size:
+            raise DrawsMismatch(f"draw no. {self.pos}: the code asks for {kind}/{size}, prescribed {k}/{len(val)}")
+        return list(val)
+
+    def choices(self, population, weights=None, *, cum_weights=None, k=1):
+        pop = list(population)
+        w = None if weights is None else [float(x) for x in weights]
+        if self.forced is None:
+            idx = self._c(range(len(pop)), weights=w, cum_weights=cum_weights, k=k)
+        else:
+            idx = self._next("c", k)
+        self.calls.append(("c", pop, w, list(idx)))
+        return [pop[i] for i in idx]
+
+    def shuffle(self, x):
+        if self.forced is None:
+            perm = list(range(len(x)))
+            self._s(perm)
+        else:
+            perm = self._next("s", len(x))
+        self.calls.append(("s", None, None, perm))
+        x[:] = [x[i] for i in perm]
+
+
+class DrawsMismatch(Exception):
+    pass
+
+
+def one_class(tags):
+    """class of a one-photon state (complete invariant inside one `_generate_one_photon_distribution`)"""
+    return (sum(1 for t in tags if t is None), sum(1 for t in tags if t == 0),
+            sum(1 for t in tags if t not in (None, 0)))
+
+
+def run_sampler(P, ns, f, k, pre, priors, forced=None, seed=0):
+    """the REAL generate_samples under the wrapper -> (tag counter at entry, samples as mode lists, calls) ;
+    raises whatever the code raises"""
+    import perceval as pcvl
+    from perceval.utils import BasicState
+    pcvl.random_seed(seed)
+    pyrandom.seed(seed)
+    src = mk_source(P)
+    advance(src, pre)
+    for prior in priors:
+        if prior.get("cache"):
+            src.cache_prob_table(sum(prior["ns"]), prior["f"])
+        else:
+            src.generate_samples(7, BasicState(prior["ns"]), prior["f"])
+    t = src.get_tag("discernability_tag")
+    with Draws(forced) as rec:
+        samples = src.generate_samples(k, BasicState(ns), f) if f else src.generate_samples(k, BasicState(ns))
+    if forced is not None and rec.pos != len(forced):
+        raise DrawsMismatch(f"the code used {rec.pos} of the {len(forced)} prescribed draws")
+    return t, [bs_modes(s) for s in samples], rec.calls
+
+
+def own_law(P, ns, f):
+    """the code's OWN generate_distribution (new Source), conditioned on the filter; canon -> probability"""
+    from perceval.utils import BasicState
+    own = svd_entries(mk_source(P).generate_distribution(BasicState(ns)))
+    own = [(m, p) for m, p in own if sum(len(t) for t in m) >= f]
+    tot = sum(p for _, p in own)
+    if tot <= 0:
+        return None
+    return {c: v / tot for c, v in to_canon_dict(own, none_as_zero=True).items()}
+
+
+EXH_LIMIT = 16000
+
+
+def exhaustive_plan(calls, ns, f):
+    """all combinations of draws for ONE sample, from the populations / weights seen in a recorded run
+    -> (forced calls for a run with k = number of combinations, the ideal probability of each combination) or None"""
+    n = sum(ns)
+    if not f:
+        cs = [c for c in calls if c[0] == "c"]
+        sizes = [len(c[1]) for c in cs]
+        total = 1
+        for z in sizes:
+            total *= z
+        if total > EXH_LIMIT or any(z == 0 for z in sizes):
+            return None
+        combos = list(itertools.product(*[range(z) for z in sizes]))
+        probs = []
+        for cb in combos:
+            w = 1.0
+            for c, i in zip(cs, cb):
+                w *= c[2][i] / sum(c[2])
+            probs.append(w)
+        forced = [("c", [cb[j] for cb in combos]) for j in range(len(cs))]
+        return forced, probs
+    keys, w = calls[0][1], calls[0][2]
+    bw = None
+    for c in calls[1:]:
+        if c[0] == "c":
+            bw = c[2]
+    if bw is None:
+        bw = [1.0, 0.0]
+    perms = list(itertools.permutations(range(n)))
+    combos, probs = [], []
+    for ei, e in enumerate(keys):
+        nb = e[0] + e[2]
+        if len(combos) + (2 ** nb) * len(perms) > EXH_LIMIT:
+            return None
+        for bs in itertools.product((0, 1), repeat=nb):
+            pb = w[ei] / sum(w)
+            for b in bs:
+                pb *= bw[b] / sum(bw)
+            for pm in perms:
+                combos.append((ei, bs, pm))
+                probs.append(pb / len(perms))
+    forced = [("c", [c[0] for c in combos]), ("c", [b for c in combos for b in c[1]])] + \
+             [("s", list(c[2])) for c in combos]
+    return forced, probs
+
+
+def lean_replay(chk, P, ns, f, t, k, calls):
+    """the Lean model on the draws of `calls` -> (reply, None) or (None, (signature, text)).
+    An index means 'this entry of the population the code passed to random.choices'; it is translated into the index
+    of the SAME entry (one-photon state class / event key / boolean) in the model's population, so that a different
+    insertion order or tag numbering in the code is not a disagreement.  Populations and weights are compared here."""
+    cs = [c for c in calls if c[0] == "c"]
+    if not f:
+        def ask(idx):
+            return chk.lean.ask({"op": "replay_nf", "P": lean_P(P), "ns": ns, "t": t, "k": k, "calls": idx})
+        rep = ask([c[3] for c in cs])
+        if "err" in rep:
+            return rep, None
+        idx, changed = [], False
+        for j, (c, mc) in enumerate(zip(cs, rep["calls"])):
+            real = [one_class(bs_modes(b)[0]) for b in c[1]]
+            mod = [one_class(m) for m, _ in mc]
+            if sorted(real) != sorted(mod) or len(set(real)) != len(real):
+                return None, ("model-vs-code:sampler-population",
+                              f"bsd.sample call {j}: states {[bs_modes(b)[0] for b in c[1]]}, model {[m for m, _ in mc]}")
+            tot = sum(c[2])
+            for i, cl in enumerate(real):
+                mp = float(F(mc[mod.index(cl)][1]))
+                if not core.close(c[2][i] / tot, mp):
+                    return None, ("model-vs-code:sampler-weights",
+                                  f"bsd.sample call {j}, state {bs_modes(c[1][i])[0]}: weight {c[2][i] / tot!r}, model {mp!r}")
+            changed = changed or real != mod
+            idx.append([mod.index(real[i]) for i in c[3]])
+        if changed:
+            chk.count("draws_population_reordered", 1)
+            rep = ask(idx)
+        return rep, None
+    n = sum(ns)
+    tab = chk.lean.ask({"op": "table", "P": lean_P(P), "n": n, "f": f})
+    if "err" in tab:
+        return tab, None
+    mkeys = [tuple(e[:3]) for e in tab["table"]]
+    mtot = sum(F(e[3]) for e in tab["table"])
+    rkeys = [tuple(x) for x in cs[0][1]]
+    if sorted(rkeys) != sorted(mkeys):
+        return None, ("model-vs-code:sampler-event",
+                      f"the events the code draws from for ({n} photons, filter {f}) are {rkeys}, the model's table has "
+                      f"{mkeys}")
+    rtot = sum(cs[0][2])
+    rtol = cond_rtol(P, n, f)
+    for key, w in zip(rkeys, cs[0][2]):
+        mp = float(F(tab["table"][mkeys.index(key)][3]) / mtot)
+        if not close_rel(w / rtot, mp, rtol):
+            return None, ("model-vs-code:sampler-weights",
+                          f"event {key} is drawn with weight {w / rtot!r}, the model's table for ({n}, filter {f}) has {mp!r}")
+    bools = []
+    if len(cs) > 1:
+        if sorted(map(repr, cs[1][1])) != ["False", "True"]:
+            return None, ("model-vs-code:sampler-population", f"_generate_distinguishability draws from {cs[1][1]}")
+        bools = [0 if cs[1][1][i] is True else 1 for i in cs[1][3]]
+    rep = chk.lean.ask({"op": "replay_f", "P": lean_P(P), "ns": ns, "f": f, "t": t,
+                        "events": [mkeys.index(rkeys[i]) for i in cs[0][3]], "bools": bools,
+                        "perms": [c[3] for c in calls if c[0] == "s"]})
+    if "err" not in rep and len(cs) > 1 and cs[1][3]:
+        tot = sum(cs[1][2])
+        for v, w in zip(cs[1][1], cs[1][2]):
+            mp = float(F(rep["boolw"][0 if v is True else 1]))
+            if not core.close(w / tot, mp):
+                return None, ("model-vs-code:sampler-weights",
+                              f"_generate_distinguishability: {v} has weight {w / tot!r}, model {mp!r}")
+    return rep, None
+
+
+def compare_replay(chk, P, ns, f, t, modes, calls):
+    """real samples against the model's on the same draws -> None or (signature, text)"""
+    rep, bad = lean_replay(chk, P, ns, f, t, len(modes), calls)
+    if bad is not None:
+        return bad
+    if "err" in rep:
+        return ("model-vs-code:sampler-draws", f"the model cannot consume the draws the code made: {rep['err']}")
+    ms = rep["samples"]
+    if len(ms) != len(modes):
+        return ("model-vs-code:sampler-replay", f"{len(modes)} samples, model {len(ms)}")
+    for i, (a, b) in enumerate(zip(modes, ms)):
+        if canon(a) != canon(b):
+            return ("model-vs-code:sampler-replay",
+                    f"sample {i} of generate_samples({ns}, min_detected_photons={f}) is {a}; the model, fed the same draws "
+                    f"(tag counter {t}), gives {b}")
+    return None
+
+
+def judge_draws(chk, case):
+    """generate_samples as a function of its draws: (1) a run on the generator's own draws, recorded, replayed
+    through the Lean model, samples compared exactly (tags up to renaming); (2) for small requests ALL combinations of
+    draws forced through the real code: compared with the model sample by sample, and the push-forward of the ideal
+    law (weights as the code passes them to random.choices, uniform permutations) compared with the code's own
+    generate_distribution conditioned on the filter — the clause 'the direct sample generator draws from this same
+    distribution' evaluated on the real code, no Lean involved."""
+    P, ns, f, k = case["P"], case["ns"], case["f"], case["k"]
+    pre, priors = case.get("pre", 0), priors_of(case)
+    perfect, pd = classify(P)
+    route = chk.lean.ask({"op": "route", "P": lean_P(P), "ns": ns, "f": f})
+    if "err" in route:
+        return ("broken", "model-vs-code:sampler-route", f"the model rejects the request: {route['err']}", case)
+    route = route["route"]
+    chk.branch("draws-route-" + route)
+    try:
+        t, modes, calls = run_sampler(P, ns, f, k, pre, priors, seed=case.get("seed", 0))
+        raised = None
+    except DrawsMismatch:
+        raise
+    except Exception as e:  # noqa
+        raised = type(e).__name__
+    if route == "IndexError" or raised is not None:
+        if raised == route:
+            return None
+        if raised is not None:
+            return ("violation", "raises-" + raised, f"generate_samples raised {raised}", case)
+        return ("broken", "model-vs-code:sampler-route", "the model expects IndexError (empty event table)", case)
+    if route == "aborted":
+        if modes or calls:
+            return ("broken", "model-vs-code:sampler-route", "no useful state possible, yet samples / draws were made", case)
+        return None
+    if len(modes) != k:
+        return ("violation", "sample-count", f"{len(modes)} samples returned for {k} requested", case)
+    if route == "perfect":
+        if calls:
+            return ("broken", "model-vs-code:sampler-route", "a perfect source made random draws", case)
+        if any(m != [[None] * x for x in ns] for m in modes):
+            return ("violation", "perfect-not-identity", "a perfect source samples something else than the input", case)
+        return None
+    for m in modes:
+        if sum(len(x) for x in m) < f:
+            return ("violation", "sample-below-filter", "a sample has fewer photons than min_detected_photons", case)
+        flat = [x for tags in m for x in tags if x not in (None, 0)]
+        if len(set(flat)) != len(flat):
+            return ("violation", "tags-not-fresh", f"a sample has two photons with the same non-signal tag: {m}", case)
+    chk.count("draws_recorded_samples", k)
+    bad = compare_replay(chk, P, ns, f, t, modes, calls)
+    plan = exhaustive_plan(calls, ns, f) if (case.get("exh") or bad is not None) else None
+    if plan is not None:
+        forced, probs = plan
+        chk.branch("draws-exhaustive-" + ("filter" if f else "nf"))
+        chk.count("draws_forced_combinations", len(probs))
+        try:
+            t2, modes2, calls2 = run_sampler(P, ns, f, len(probs), pre, priors, forced=forced)
+        except DrawsMismatch as e:
+            return ("broken", "model-vs-code:sampler-draws", f"forcing all draws: {e}", case)
+        law = {}
+        for m, w in zip(modes2, probs):
+            c = canon(m, none_as_zero=True)
+            law[c] = law.get(c, 0.0) + w
+        own = own_law(P, ns, f)
+        if own is not None:
+            law = {c: v for c, v in law.items() if v > 0}
+            w = cmp_dicts(law, own)
+            if w is not None:
+                return ("violation", "sampler-law-exact" + ("-filter" if f else ""),
+                        f"all {len(probs)} combinations of draws forced through generate_samples({ns}"
+                        f"{', min_detected_photons=%d' % f if f else ''}): under ideal draws the state class {w[0]} has "
+                        f"probability {w[1]!r}, generate_distribution{' conditioned on the filter' if f else ''} gives "
+                        f"{w[2]!r}", case)
+        bad2 = compare_replay(chk, P, ns, f, t2, modes2, calls2)
+        bad = bad or bad2
+    if bad is not None:
+        return ("broken", bad[0], bad[1], case)
+    return None
+
+
 def judge_bad(chk, case):
     """constructor rejections (malformed stream)"""
     P = case["P"]
@@ -1522,7 +1833,7 @@ def gen_hist(rng, pick_params):
 
 
 JUDGES = {"gen": judge_gen, "proc": judge_gen, "pd": judge_pd, "table": judge_table, "samples": judge_samples,
-          "bad": judge_bad, "hist": judge_hist}
+          "bad": judge_bad, "hist": judge_hist, "draws": judge_draws}
 
 
 def judge(chk, case):
@@ -1548,6 +1859,11 @@ def simpler(case):
         yield {**c, "n": c["n"] - 1}
     if c.get("f", 0) > 1:
         yield {**c, "f": c["f"] - 1}
+    if c["kind"] == "draws" and c.get("k", 0) > 1:
+        yield {**c, "k": 1}
+        yield {**c, "k": c["k"] // 2}
+    if c["kind"] == "draws" and not c.get("exh"):
+        yield {**c, "exh": True}
     if c.get("pre"):
         yield {**c, "pre": 0}
     if c.get("prior"):
@@ -1639,7 +1955,7 @@ def handle(chk, case):
         chk.count("param_class", cls)
         cell = cell_of(P)
         chk.count("imperfection_cell", cell)
-        lk = kind if kind != "samples" else ("samples-filter" if case["f"] else "samples-nofilter")
+        lk = kind if kind not in ("samples", "draws") else (kind + ("-filter" if case["f"] else "-nofilter"))
         chk.branch(f"imp:{cell}:{lk}")
         if lk in MAG_KINDS:
             for lab in mag_labels(P):
@@ -1670,6 +1986,10 @@ def handle(chk, case):
             chk.branch("samples-filter" if case["f"] else "samples-nofilter")
             for sh in prior_shapes(case):
                 chk.branch(sh)
+        if kind == "draws":
+            chk.branch("draws-filter" if case["f"] else "draws-nofilter")
+            if priors_of(case) and case["f"]:
+                chk.branch("draws-after-other-request")
         if kind == "proc":
             chk.branch("proc")
             chk.branch("proc-" + case.get("order", "ctor"))
@@ -1681,10 +2001,11 @@ def handle(chk, case):
     secs = chk.extra.setdefault("seconds_by_kind", {})
     secs[kind] = round(secs.get(kind, 0.0) + time.perf_counter() - t0, 3)
     sig = (kind, json.dumps(P, sort_keys=True), tuple(case.get("ns", [])), case.get("n"), case.get("f"),
-           case.get("thr"), case.get("pre", 0), case.get("order"), json.dumps(case.get("prior"), sort_keys=True))
+           case.get("thr"), case.get("pre", 0), case.get("order"), json.dumps(case.get("prior"), sort_keys=True),
+           case.get("k"), case.get("exh"), case.get("seed") if kind == "draws" else None)
     nontrivial = kind != "bad" and not classify(P)[0] and (sum(case.get("ns", [])) + case.get("n", 0) > 0)
     chk.case(sig, nontrivial=nontrivial,
-             sample={k: case[k] for k in ("kind", "P", "ns", "n", "f", "thr", "order", "prior") if k in case})
+             sample={k: case[k] for k in ("kind", "P", "ns", "n", "f", "thr", "order", "prior", "k", "exh") if k in case})
     if res is not None:
         kind_, sg, what, _ = res
         small = shrink(chk, case, sg)
@@ -1757,7 +2078,10 @@ def run(chk: core.Check):
                              "zero-photon-mode", "table-filter", "table-nofilter", "table-range-quirk",
                              "table-zero-perf", "samples-filter", "samples-nofilter", "samples-after-other-request",
                              "samples-after-stricter-filter-same-n", "samples-after-weaker-filter-same-n",
-                             "samples-after-other-n-same-filter", "samples-after-two-requests", "proc",
+                             "samples-after-other-n-same-filter", "samples-after-two-requests",
+                             "draws-filter", "draws-nofilter", "draws-route-perfect", "draws-route-no-filter",
+                             "draws-route-aborted", "draws-route-events", "draws-route-IndexError",
+                             "draws-exhaustive-nf", "draws-exhaustive-filter", "draws-after-other-request", "proc",
                              "proc-ctor", "proc-noise-after", "proc-renoise", "proc-reinput", "loss-only",
                              "rejected-stream",
                              "hist", "hist-inplace-ref", "hist-inplace-getter", "hist-inplace-reassign",
@@ -1993,6 +2317,39 @@ def run(chk: core.Check):
                 else:
                     case["prior"] = {"ns": ns + [1], "f": f, "cache": rng.random() < 0.3}
             cases.append(case)
+    # 8. the sampler as a function of its draws: recorded run replayed through the model, all draws forced
+    kd = chk.pick(40, 150)
+    for il, (cell, P) in enumerate(lat):
+        ns = [[1, 1], [2], [1, 0, 1], [2, 1]][il % 4]
+        cases.append({"kind": "draws", "P": P, "ns": ns, "f": 0, "k": kd, "seed": rng.randrange(1 << 30),
+                      "pre": il % 2, "exh": True})
+        f = 1 + il % 2
+        case = {"kind": "draws", "P": P, "ns": ns, "f": f, "k": kd, "seed": rng.randrange(1 << 30),
+                "pre": (il // 2) % 2, "exh": True}
+        if cell.split(":")[0] != "none" and "L" not in cell.split(":")[0] and il % 3 != 2:
+            pr = prior_requests(P, ns, f, ("stricter", "weaker", "other-n", "two", "stricter")[(il // 2) % 5])
+            case["prior"] = [{**q, "cache": (il + j) % 3 == 0} for j, q in enumerate(pr)]
+        cases.append(case)
+    for name in ("pd-dist", "pd-indist", "nonpd-g2", "pd-dist-I1", "no-loss-g2", "r-zero", "r-zero-indist", "q-zero",
+                 "hom-only", "loss-only", "perfect"):
+        P = FIXED[name]
+        for ns, f, exh in (([2, 2], 0, False), ([1, 1, 1, 1], 2, chk.pick(False, True)), ([3, 1], 3, False),
+                           ([0, 2, 0, 1], 1, True), ([1, 2], 0, True), ([3], 5, True), ([1], 3, True)):
+            cases.append({"kind": "draws", "P": P, "ns": ns, "f": f, "k": chk.pick(60, 300),
+                          "seed": rng.randrange(1 << 30), "pre": rng.choice([0, 1, 3]), "exh": exh})
+    for _ in range(chk.pick(30, 400)):
+        P = rand_params(rng)
+        m = rng.randint(1, 4)
+        ns = [rng.randint(0, 2) for _ in range(m)]
+        while sum(ns) > 5:
+            ns[rng.randrange(m)] = 0
+        f = rng.choice([0, 0, 1, 2, 3, sum(ns), 2 * sum(ns) + 1])
+        case = {"kind": "draws", "P": P, "ns": ns, "f": f, "k": chk.pick(30, 120), "seed": rng.randrange(1 << 30),
+                "pre": rng.choice([0, 0, 2]), "exh": sum(ns) <= 3}
+        if f and rng.random() < 0.4 and filter_reachable(P, sum(ns), f):
+            case["prior"] = [{**q, "cache": rng.random() < 0.3}
+                             for q in prior_requests(P, ns, f, rng.choice(["stricter", "weaker", "other-n", "two"]))]
+        cases.append(case)
     for case in cases:
         handle(chk, case)
     chk.extra["gof_false_alarm_level"] = ALPHA
